@@ -47,9 +47,16 @@ TRUSTED_BASE = [
     'message.py; that the bytes the bus writes decode to what `remarshal` says is checked on every delivery (S3), that '
     'they equal what was sent except for the sender is the oracle (S4: field by field as a mapping code -> (type, value), '
     'body bytes, byte order)',
-    'match-rule evaluation is a parameter of the model (C12 owns router.Rule.match); the driver instantiates it with '
-    'equality on type/interface/member/path/destination (theorem simple_rule_keys_are_the_routers ties the key set to '
-    'the tuple in router.py) and, like router.py, ignores a sender= constraint (known finding)',
+    'match-rule evaluation: the theorems of sections 1-6 hold for every rule predicate; the driver and section 7 '
+    'instantiate it with C12\'s code models (Route/Rule.lean mkRule + Rule.match, Route/Text.lean parseRuleGen) on the '
+    'bus\'s message object (Bus/RouteFull.lean ruleView: member has no class default, the others read None), for all '
+    'keys: type, interface, member, path, destination, path_namespace, argN, argNpath; sender is stored and ignored '
+    '(known finding), arg0namespace is evaluated or ignored as the switch Gen.BusRoute.evaluatesArg0ns (probed from '
+    'router.py by tools/tables/c14_busroute.py on every run) says',
+    'the body as match rules see it (`args`: str / other per top-level argument) is an input of the model, taken '
+    'from txdbus\'s own unmarshalling of the sent bytes (C02 / C11 own the unmarshaller); the rule a registration '
+    'uses is the MODEL\'s reading of the rule text in the AddMatch call, compared on every AddMatch with the kwargs '
+    'observed at the real router.addMatch (`rule=` in the driver output)',
     'the name table is a parameter of the model (C13 owns RequestName/ReleaseName): owner changes and the signals '
     'those functions emit are observed on the real bus and replayed into the model as effects',
     'object dispatch (C10 owns handleMethodCallMessage) is observed, not predicted: executeMethod called / '
@@ -65,6 +72,12 @@ ASSUMPTIONS = [
     'the generator also writes \'\' into destination / sender (not a bus name): such messages are fed to model and bus '
     '(correspondence) but never judged, and an exception on them is a lost connection, not a finding',
     'a client holding two matching rules receives a broadcast once per rule; the statement does not count copies',
+    'rule matching is judged with the DBus specification\'s "Match Rules" text for every key; left undecided (nothing '
+    'demanded, as in C12): a string-valued argument of a DBus type other than the one the key asks for (OBJECT_PATH or '
+    'SIGNATURE under argN / arg0namespace, SIGNATURE under argNpath, a string inside a VARIANT) whose text satisfies '
+    'the constraint - txdbus unmarshals all of them to str - and constraints whose value is the empty string; '
+    'the bus\'s own broadcasts (NameOwnerChanged) are judged one-sidedly: whoever receives one holds a rule it '
+    'satisfies, and if anybody receives it every holder of such a rule does (whether it is emitted at all is C13\'s)',
     'methods of the bus interface that txdbus does not implement (RemoveMatch, GetId fails to encode) are answered '
     'with an error reply, which counts as answered',
     'legitimate changes that the ORACLE accepts but the MODEL does not follow yet (they show as correspondence drift, '
@@ -72,7 +85,8 @@ ASSUMPTIONS = [
     'sender for an unknown destination, honouring NO_REPLY_EXPECTED in _send_err, validating bus names in parseMessage; '
     'the bus stamping org.freedesktop.DBus as sender of its own messages is accepted by both',
 ]
-RULE = ('a case is one history (list of operations of up to 13 connections, at most 4 alive) together with all '
+RULE = ('a case is one history (list of operations of up to 13 connections, at most 4 alive; AddMatch rules over all keys '
+        'of the rule language, texts written by the harness or by the real txdbus client) together with all '
         'per-event deliveries; distinct = distinct canonical JSON of the operation list; non-trivial = at least '
         'one message was delivered to some client other than a bus reply to its sender')
 
@@ -545,7 +559,11 @@ def header_fields(raw):
 
 def parse(message, raw, sent=False):
     m = message.parseMessage(raw, [])
-    hf = header_fields(raw)
+    hfl = header_field_list(raw)       # read once (the harness's own reader)
+    hf = dict((code, (sig, v)) for code, sig, v in hfl)       # a later duplicate wins, as in parseMessage
+    counts = {}
+    for code, _, _ in hfl:
+        counts[code] = counts.get(code, 0) + 1
     extra = ','.join('%d:%s=%s' % (c, hf[c][0], str(hf[c][1]).encode().hex()) for c in sorted(hf)
                      if c not in KNOWN_CODES)
     d = {
@@ -563,9 +581,8 @@ def parse(message, raw, sent=False):
         'hvalues': dict((str(c), repr(hf[c][1])) for c in hf if c != 7),
         'extra': extra or None,
         # every SENDER field in the bytes, in order (a receiver may take the first occurrence)
-        'senders': [v for code, _, v in header_field_list(raw) if code == 7],
-        'repeated': sorted(set(c for c, _, _ in header_field_list(raw)
-                               if sum(1 for c2, _, _ in header_field_list(raw) if c2 == c) > 1)),
+        'senders': [v for code, _, v in hfl if code == 7],
+        'repeated': sorted(c for c in counts if counts[c] > 1),
     }
     if (m.sender is None or m.sender == BUS) and not sent:
         d['btok'] = body_token(m.signature, m.body)         # built by the bus
